@@ -16,6 +16,8 @@ type Addr struct {
 	Key  string // heap key
 	Base string // ref term (field/cell/elem backing ref)
 	Idx  string // absolute element index (BV64) for elem
+	Struct string // elemfield: struct sort of the element
+	Field  int    // elemfield: field index
 }
 
 type Val struct {
